@@ -67,9 +67,15 @@ BOUNDS = {
              "per pixel). fit_util functions directly on plain arrays: all masks of shapes with <= 6 pixels, every array entry and the 5 evidence terms "
              "symbolic. Evidence: real AbstractInversion over mock linear objects, object lists R1,R2,U1,U1U1,R2U1,U1R2,R1R2,U1R2U1,R1U1R1,U1U1R2,R1U1R1U1 "
              "(R/U = regularized/unregularized object, digit = number of parameters), symmetric curvature matrix F, regularization blocks H_i and "
-             "reconstruction s fully symbolic, combined with all masks of 2x2 in both modes and symbolic sky",
+             "reconstruction s fully symbolic, combined with all masks of 2x2 in both modes and symbolic sky. Read-order / history independence: on ONE "
+             "fit object the quantities are read in two orders (derived maps signal_to_noise_map, residual_flux_fraction_map, normalized and chi-squared "
+             "maps BEFORE residual_map/chi_squared/log_likelihood/log_evidence/figure_of_merit; and statistics first, derived maps next, statistics again), "
+             "every read compared with its definition, and afterwards dataset.data / dataset.noise_map / model_data must still equal their input terms; "
+             "all masks of shapes with <= 4 pixels, both modes, data of either sign, sky symbolic (zero and non-zero branch), without inversion and "
+             "(<= 3 pixels) with the object list U1R1",
     "thorough": "same, shapes additionally 2x4,4x2,1x7,2x5,3x4 for the fit statistics (residual-flux-fraction <= 10 pixels incl. 3x3, signal-to-noise <= 6 pixels, "
-                "fit_util <= 10 pixels); evidence additionally for object lists R3,U2R2,R2U2,U1R1U1R1,R2R2,U2R1U1,R1R1R1,U1R3U1,R1U2R1 and masks of 2x3",
+                "fit_util <= 10 pixels); evidence additionally for object lists R3,U2R2,R2U2,U1R1U1R1,R2R2,U2R1U1,R1R1R1,U1R3U1,R1U2R1 and masks of 2x3; read-order cases additionally 1x4 (both modes) and "
+                "2x3 (slim mode), with inversion up to 4 pixels",
 }
 OUTSIDE = [
     "shapes / parameter counts beyond the bounds",
@@ -642,15 +648,11 @@ def _abs(t):
     return z3.If(t >= 0, t, -t)
 
 
-def case_evidence(ctx, H, W, native, config):
-    mask, inputs = _mask_and_inputs(ctx, H, W)
+def _assume_spd(ctx, inputs, config):
+    """only for the native cross-validation / replays (LAPACK needs positive definite matrices): strict diagonal dominance.
+    Kept in a group of their own, i.e. NOT assumed by the obligations (those hold for every F, H)."""
     objs = _parse_objs(config)
     P = sum(k for _, k in objs)
-    inputs["F"] = V.real_array("F", (P, P))
-    inputs["Hb"] = V.real_array("Hb", (P, P))
-    inputs["s"] = V.real_array("s", (P,))
-    # only for the native cross-validation / replays (LAPACK needs positive definite matrices): strict diagonal dominance.
-    # Kept in a group of their own, i.e. NOT assumed by the obligations (those hold for every F, H).
     Fm, Hm = _sym_matrix(inputs["F"], P), _sym_matrix(inputs["Hb"], P)
     for i in range(P):
         ctx.assume(Fm[i][i].t >= 1 + z3.Sum([_abs(Fm[i][j].t) for j in range(P) if j != i] + [z3.RealVal(0)]), group="spd")
@@ -659,10 +661,109 @@ def case_evidence(ctx, H, W, native, config):
         for i in range(k):
             ctx.assume(Hm[o + i][o + i].t >= 1 + z3.Sum([_abs(Hm[o + i][o + j].t) for j in range(k) if j != i] + [z3.RealVal(0)]), group="spd")
         o += k
+
+
+def case_evidence(ctx, H, W, native, config):
+    mask, inputs = _mask_and_inputs(ctx, H, W)
+    objs = _parse_objs(config)
+    P = sum(k for _, k in objs)
+    inputs["F"] = V.real_array("F", (P, P))
+    inputs["Hb"] = V.real_array("Hb", (P, P))
+    inputs["s"] = V.real_array("s", (P,))
+    _assume_spd(ctx, inputs, config)
     _run(ctx, body_evidence, inputs, {"H": H, "W": W, "native": native, "config": config}, validate_every=8)
 
 
-BODIES = {"case_fit": body_fit, "case_snr": body_snr, "case_rff": body_rff, "case_util": body_util, "case_evidence": body_evidence}
+# ---------------------------------------------------------------------------- case 5: read-order / history independence
+
+# every quantity must follow its definition whatever was read from the SAME fit object before (plotters read the derived
+# maps first); "2" = second read of the same quantity later in the sequence
+ORDERS = {
+    "derived_first": ["signal_to_noise_map", "residual_flux_fraction_map", "normalized_residual_map", "chi_squared_map",
+                      "residual_map", "chi_squared", "reduced_chi_squared", "noise_normalization", "log_likelihood",
+                      "log_evidence", "figure_of_merit", "signal_to_noise_map"],
+    "stats_first": ["figure_of_merit", "log_likelihood", "chi_squared", "residual_map", "noise_normalization",
+                    "chi_squared_map", "normalized_residual_map", "residual_flux_fraction_map", "signal_to_noise_map",
+                    "residual_map", "chi_squared", "reduced_chi_squared", "log_likelihood", "log_evidence", "figure_of_merit",
+                    "residual_flux_fraction_map"],
+}
+_MAPS = ("signal_to_noise_map", "residual_flux_fraction_map", "normalized_residual_map", "chi_squared_map", "residual_map")
+
+
+def body_order(inp, H, W, native, order, config):
+    inv, reg_terms = None, None
+    if config:
+        objs = _parse_objs(config)
+        P = sum(k for _, k in objs)
+        Fm, Hm = _sym_matrix(inp["F"], P), _sym_matrix(inp["Hb"], P)
+        sv = list(np.asarray(inp["s"], dtype=object).reshape(P))
+        inv = _make_inversion(objs, Hm, Fm, sv)
+    mask, pos, fit = _make_fit(inp, H, W, native, inversion=inv)
+    dd, nn, mm = _ref_pixels(inp, H, W, pos)
+    res = [a - b for a, b in zip(dd, mm)]
+    chi = [(r / q) * (r / q) for r, q in zip(res, nn)]
+    chi2 = _sum(chi)
+    norm = _sum([_log(TWO_PI * q * q) for q in nn])
+    like = -(chi2 + norm) / 2
+    ref = {"signal_to_noise_map": [_clip0(a / q) for a, q in zip(dd, nn)],
+           "residual_flux_fraction_map": [r / a for r, a in zip(res, dd)],
+           "normalized_residual_map": [r / q for r, q in zip(res, nn)], "chi_squared_map": chi, "residual_map": res,
+           "chi_squared": chi2, "reduced_chi_squared": chi2 / len(pos), "noise_normalization": norm, "log_likelihood": like,
+           "figure_of_merit": like}
+    if config:
+        R, Hfull, o = [], [[0.0] * P for _ in range(P)], 0
+        for reg, k in objs:
+            if reg:
+                R += list(range(o, o + k))
+                for i in range(k):
+                    for j in range(k):
+                        Hfull[o + i][o + j] = Hm[o + i][o + j]
+            o += k
+        reg_term = _sum([sv[i] * Hfull[i][j] * sv[j] for i in R for j in R])
+        ev = -(chi2 + reg_term + _logdet([[Fm[i][j] + Hfull[i][j] for j in R] for i in R])
+               - _logdet([[Hfull[i][j] for j in R] for i in R]) + norm) / 2
+        ref["log_evidence"] = ev
+        ref["figure_of_merit"] = ev
+    A, E = {}, {}
+    for step, name in enumerate(ORDERS[order]):
+        if name not in ref:
+            continue
+        key = "%02d:%s" % (step, name)
+        try:
+            r = hx.attempt(lambda: getattr(fit, name))
+        except V.NonFinite:
+            # e.g. a division by a concrete 0 that an earlier read wrote into the data: never equal to the reference, the
+            # float64 replay decides (inf/nan there)
+            r = hx.Raised("NonFinite")
+        if name in _MAPS:
+            r = _on_unmasked(r, mask, native)
+            r = [x for x in r] if isinstance(r, list) else r      # snapshot: later reads must not alias it
+        else:
+            r = _scalar(r)
+        A[key] = r
+        E[key] = ref[name]
+    # the arrays handed to the fit still hold their original values afterwards
+    for label, arr, name in (("dataset.data", fit.dataset.data, "d"), ("dataset.noise_map", fit.dataset.noise_map, "n"),
+                             ("model_data", fit.model_data, "mo")):
+        full = np.asarray(inp[name], dtype=object).reshape(H, W)
+        A["after:%s_unchanged" % label] = _vec(arr)
+        E["after:%s_unchanged" % label] = list(full.reshape(-1)) if native else [full[p] for p in pos]
+    return A, E
+
+
+def case_order(ctx, H, W, native, order, config):
+    mask, inputs = _mask_and_inputs(ctx, H, W)
+    if config:
+        P = sum(k for _, k in _parse_objs(config))
+        inputs["F"] = V.real_array("F", (P, P))
+        inputs["Hb"] = V.real_array("Hb", (P, P))
+        inputs["s"] = V.real_array("s", (P,))
+        _assume_spd(ctx, inputs, config)
+    _run(ctx, body_order, inputs, {"H": H, "W": W, "native": native, "order": order, "config": config}, validate_every=8)
+
+
+BODIES = {"case_fit": body_fit, "case_snr": body_snr, "case_rff": body_rff, "case_util": body_util, "case_evidence": body_evidence,
+          "case_order": body_order}
 
 CONFIGS_Q = ["R1", "R2", "U1", "U1U1", "R2U1", "U1R2", "R1R2", "U1R2U1", "R1U1R1", "U1U1R2", "R1U1R1U1"]
 CONFIGS_T = CONFIGS_Q + ["R3", "U2R2", "R2U2", "U1R1U1R1", "R2R2", "U2R1U1", "R1R1R1", "U1R3U1", "R1U2R1"]
@@ -686,11 +787,20 @@ def cases(tier):
         if n <= (6 if quick else 10):
             out.append(("case_util", {"H": H, "W": W, "part": "stat"}, sp))
             out.append(("case_util", {"H": H, "W": W, "part": "rff"}, sp))
+    for (H, W) in [(1, 1), (1, 2), (2, 1), (1, 3), (2, 2)] + ([] if quick else [(1, 4), (2, 3)]):
+        n = H * W
+        for native in ((False, True) if n <= 4 else (False,)):
+            for order in ORDERS:
+                out.append(("case_order", {"H": H, "W": W, "native": native, "order": order, "config": None},
+                            {"split": 0 if n < 4 else (3 if n == 4 else 5)}))
+                if n <= (3 if quick else 4):
+                    out.append(("case_order", {"H": H, "W": W, "native": native, "order": order, "config": "U1R1"},
+                                {"split": 0 if n < 4 else 3}))
     for config in (CONFIGS_Q if quick else CONFIGS_T):
         for native in (False, True):
             for (H, W) in ([(2, 2)] if quick else [(2, 2), (2, 3)]):
                 out.append(("case_evidence", {"H": H, "W": W, "native": native, "config": config}))
-    out.sort(key=lambda c: -(c[1]["H"] * c[1]["W"] * (4 if c[0] == "case_snr" else 1)))
+    out.sort(key=lambda c: -(c[1]["H"] * c[1]["W"] * (4 if c[0] in ("case_snr", "case_order") else 1)))
     return out
 
 
